@@ -60,7 +60,8 @@ func (hs *clientHandshakeStateTLS13) handshake() error {
 	}
 
 	// Consistency check on the presence of a keyShare and its parameters.
-	if hs.keyShareKeys == nil || hs.keyShareKeys.ecdhe == nil || len(hs.hello.keyShares) == 0 {
+	// [uTLS] a spec may carry only a hybrid key share, whose X25519 key is kept in mlkemEcdhe
+	if hs.keyShareKeys == nil || (hs.keyShareKeys.ecdhe == nil && hs.keyShareKeys.mlkemEcdhe == nil) || len(hs.hello.keyShares) == 0 {
 		return c.sendAlert(alertInternalError)
 	}
 
@@ -610,6 +611,12 @@ func (hs *clientHandshakeStateTLS13) establishHandshakeKeys() error {
 	if key, ok := hs.keyShareKeys.ecdheExtra[hs.serverHello.serverShare.group]; ok {
 		// the server selected one of the additional classical key shares
 		ecdheKey = key
+	}
+	if group := hs.serverHello.serverShare.group; (group == X25519MLKEM768 || group == X25519Kyber768Draft00) &&
+		hs.uconn != nil && hs.uconn.clientHelloBuildStatus == BuildByUtls && hs.keyShareKeys.mlkemEcdhe != nil {
+		// a hybrid share built by uTLS has its own X25519 key; the first classical
+		// share may be for another curve, or there may be none at all
+		ecdheKey = hs.keyShareKeys.mlkemEcdhe
 	}
 	sharedKey, err := getSharedKey(ecdhePeerData, ecdheKey)
 	// [uTLS] SECTION END
